@@ -373,6 +373,31 @@ fn directed(ctx: &mut Ctx, which: usize) -> Option<Scn> {
                 Step::NDels(vec![t1, t2, t3, t4, t5]), Step::Nodes(1, vec![p_again]), Step::Nodes(1, vec![w_older, p_newer])],
                 what: "several tombstones per row, older tombstone, tombstoned versions".into() }
         }
+        // a row leaves a room: the right in the room left is evaluated at the date of the NEW version.
+        // key 2 had the all-rows right in room 2 until d+50 (then disabled); the row of key 1 stored there
+        // is dated d.  A move dated d+40 is accepted, a move dated d+100 is refused (right revoked by then),
+        // although key 2 had the right at the stored version's date
+        11 => {
+            let mut r2 = simple_room(&[(2, 0, true, true)]);
+            r2.push(Ev::User(1, 2, d + 50, false));
+            let defs = vec![(1, simple_room(&[(2, 0, true, true)])), (2, r2)];
+            let p = ctx.node(100, Some(2), Some(1), gj(1, "p"), d, 1, Tamper::No);
+            let q = ctx.node(101, Some(2), Some(1), gj(1, "q"), d, 1, Tamper::No);
+            let late = ctx.node(100, Some(1), Some(1), gj(1, "late"), d + 100, 2, Tamper::No);
+            let early = ctx.node(101, Some(1), Some(1), gj(1, "early"), d + 40, 2, Tamper::No);
+            // the same for an own row whose author lost the own-rows right in the room left
+            let mut r3 = simple_room(&[(3, 0, true, false)]);
+            r3.push(Ev::Right(1, 0, d + 50, false, false));
+            let mut defs = defs; defs.push((3, r3));
+            let defs: Vec<(u64, Vec<Ev>)> = defs.into_iter().map(|(r, mut e)| { if r == 1 { e.extend(simple_room(&[(3, 0, true, false)]).into_iter().map(|x| match x {
+                Ev::Group(_) => Ev::Group(2), Ev::User(_, k, dd, b) => Ev::User(2, k, dd, b), Ev::Right(_, en, dd, s2, a2) => Ev::Right(2, en, dd, s2, a2), o => o })); } (r, e) }).collect();
+            let o1 = ctx.node(102, Some(3), Some(1), gj(1, "o1"), d, 3, Tamper::No);
+            let o2 = ctx.node(103, Some(3), Some(1), gj(1, "o2"), d, 3, Tamper::No);
+            let own_late = ctx.node(102, Some(1), Some(1), gj(1, "own late"), d + 100, 3, Tamper::No);
+            let own_early = ctx.node(103, Some(1), Some(1), gj(1, "own early"), d + 40, 3, Tamper::No);
+            Scn { defs, pre_nodes: vec![p, q, o1, o2], pre_edges: vec![], steps: vec![Step::Nodes(1, vec![late, early, own_late, own_early])],
+                what: "moves: right in the room left at the date of the new version".into() }
+        }
         _ => return None,
     })
 }
@@ -403,6 +428,9 @@ fn gen_room(rng: &mut Rng) -> Vec<Ev> {
     }
     if rng.chance(1, 2) { evs.push(Ev::Group(2)); evs.push(Ev::User(2, 1 + rng.below(4), D0, true)); evs.push(Ev::Right(2, rng.below(4), D0, true, true)); }
     if rng.chance(1, 3) { evs.push(Ev::Admin(1 + rng.below(4), D0, true)); }
+    // rights that are revoked later: a member disabled, a right withdrawn
+    if rng.chance(1, 2) { evs.push(Ev::User(1, 1 + rng.below(4), BASE + rng.range(1, 8) * 1000, false)); }
+    if rng.chance(1, 4) { evs.push(Ev::Right(1, rng.below(4), BASE + rng.range(1, 8) * 1000, rng.chance(1, 2), false)); }
     let n = rng.below(5) as usize;
     let tail = gen_events(rng, n, true, 4);
     evs.extend(tail.into_iter().filter(|e| !matches!(e, Ev::Group(1)) ));
@@ -456,10 +484,13 @@ fn random_scn(ctx: &mut Ctx, rng: &mut Rng) -> Scn {
                             // a new version of a row the receiver may hold
                             let ent = if rng.chance(1, 8) { Some(1 + rng.below(3)) } else { old.ent };
                             let room = match rng.below(10) { 0 => old.room, 1 => None, _ => Some(r) };
+                            let late_move = old.room.is_some() && old.room != Some(r) && rng.chance(1, 2);
                             let all = rng.chance(1, 2);
                             let (mut k, mut d) = pick_entitled(rng, rooms.get(&r), keys, ent.unwrap_or(1), &dates, all);
                             if rng.chance(1, 2) { k = old.author; }
                             if rng.chance(3, 4) && d <= old.mdate { d = old.mdate + rng.range(0, 3); }
+                            // a move dated after the rights of the room left may have changed
+                            if late_move { d = d.max(BASE + rng.range(2, 12) * 1000); }
                             ctx.node(old.id, room, ent, good_json(dm, ent, "upd"), d, k, tamper)
                         }
                         _ => {
